@@ -214,6 +214,49 @@ def run(ctx, rep):
            "two connections to one server) get each other's wrapper - the call runs on the wrong peer" % A.src(badk[0][1]),
            ctx.loc(badk[0][1]) if badk else fas.loc, kind="site")
 
+    # sync_request hands back exactly what the reply carries: the value, or the very exception object (model evaluation)
+    from .. import miniinterp as MI
+    fsr = ctx.func(K.CONN + ".sync_request")
+    rep.analysed(fsr)
+
+    class _Reply:
+        mi_native = True
+
+        def __init__(self, outcome):
+            self.outcome = outcome
+
+        @property
+        def value(self):
+            if isinstance(self.outcome, MI.Raised):
+                raise self.outcome
+            return self.outcome
+    bad_sr = []
+    try:
+        for label, outcome in (("a value", "RESULT"), ("None", None), ("a remote ValueError", MI.Raised("ValueError", "ORIGINAL")),
+                               ("a TimeoutError raised by the callee", MI.Raised("TimeoutError", "ORIGINAL")),
+                               ("an OSError raised by a nested callback", MI.Raised("OSError", "ORIGINAL")),
+                               ("an EOFError", MI.Raised("EOFError", "ORIGINAL"))):
+            seen = []
+
+            def areq(*a, outcome=outcome, seen=seen, **k):
+                seen.append((a, k))
+                return _Reply(outcome)
+            try:
+                got = MI.call_method(fsr.node, {"_config": {"sync_request_timeout": 30}}, ["HANDLER", "a1", "a2"],
+                                     {"__calls__": {"self.async_request": areq}})
+                res = ("value", got)
+            except MI.Raised as r_:
+                res = ("raise", r_)
+            want = ("raise", outcome) if isinstance(outcome, MI.Raised) else ("value", outcome)
+            if res[0] != want[0] or res[1] is not want[1] or len(seen) != 1 or seen[0][0] != ("HANDLER", "a1", "a2"):
+                bad_sr.append("reply carrying %s: sync_request %s" % (label, "raises a different exception (%s)" % res[1].name
+                              if res[0] == "raise" and want[0] == "raise" else "gives %r after %d request(s)" % (res, len(seen))))
+    except AnalysisError as e_:
+        rep.undecided("R01.4", "sync_request", str(e_))
+    rep.ob("R01.4", "sync_request: the caller gets exactly the value or the exception object the reply carries", not bad_sr,
+           "6 reply kinds evaluated: one request, the outcome passed through untouched" if not bad_sr else "; ".join(bad_sr)[:400],
+           fsr.loc, kind="table")
+
     # ------------------------------------------------------------------ R01.4
     K.share(ctx, rep, "c08", lambda o: o.rule == "R08.1" and ("carries the handler's result" in o.key or
                                                               "no-exception continuation" in o.key), "R01.4", floor=2)
